@@ -227,7 +227,12 @@ class _LibrationDynamicsService(_DynamicsServiceBase):
         def _factory() -> CenterManifold:
             return CenterManifold(self.domain_obj, degree)
         
-        return self.get_or_create(cache_key, _factory)
+        center_manifold = self.get_or_create(cache_key, _factory)
+        if center_manifold.degree != degree:
+            # the cached instance was switched to another degree by its user
+            self.reset(cache_key)
+            center_manifold = self.get_or_create(cache_key, _factory)
+        return center_manifold
 
     def hamiltonian(self, max_deg: int, form: str = "center_manifold_real") -> Hamiltonian:
         """
